@@ -45,7 +45,8 @@ FLOORS = {'*': {**{f'mw:{k}:depth{d}': 20 for k in MW_KINDS + EXTRA_MW_KINDS for
                 **{f'table:{t}:failing': 20 for t in TABLES if t != 'none'},
                 **{f'table:{t}:batch': 5 for t in TABLES}, **{f'table:{t}:notification': 5 for t in TABLES},
                 'flavour:sync': 500, 'flavour:async': 500, 'flavour:async-suspending': 500, 'flavour:async-sequential': 500, 'flavour:async-awaitables': 500,
-                'flavour:flask-endpoint': 100, 'flavour:aiohttp-endpoint': 100, 'rejected-documents': 100,
+                'flavour:flask-endpoint': 100, 'flavour:aiohttp-endpoint': 100, 'flavour:sync-own-response-class': 100,
+                'flavour:async-own-response-class': 100, 'flavour:async-dict-context': 100, 'flavour:sync-dict-context': 100, 'rejected-documents': 100,
                 'short-circuit': 300, 'handler-events': 500, 'middleware-returns-UNSET-for-a-call': 100}}
 
 EVENTS = []
@@ -297,8 +298,17 @@ def endpoint_factory(flavour):
     return make
 
 
+class SubResponse(v20.Response):
+    """the dispatcher is configured with its own response class; a middleware may still answer with a plain Response"""
+
+
+class SubBatchResponse(v20.BatchResponse):
+    pass
+
+
 def base_flavour(flavour):
-    return {'flask-endpoint': 'sync', 'aiohttp-endpoint': 'async'}.get(flavour, flavour)
+    return {'flask-endpoint': 'sync', 'aiohttp-endpoint': 'async', 'sync-own-response-class': 'sync', 'async-own-response-class': 'async',
+            'async-dict-context': 'async', 'sync-dict-context': 'sync'}.get(flavour, flavour)
 
 
 def run_case(ctx, stack, table, doc_name, flavour):
@@ -310,13 +320,16 @@ def run_case(ctx, stack, table, doc_name, flavour):
     mws = [make_mw(k, i, flavour) for i, k in enumerate(stack)]
     handlers = make_handlers(tspec, flavour)
     extra = {'concurrent_batch': False} if flavour == 'async-sequential' else {}
-    if outer != flavour:
+    if outer.endswith('-endpoint'):
         extra['make_dispatcher'] = endpoint_factory(outer)
+    if outer.endswith('-own-response-class'):
+        extra.update(response_class=SubResponse, batch_response=SubBatchResponse)
     w = world.World(is_async, None, middlewares=mws, error_handlers=handlers, **extra)
     flavour = outer
     doc = DOCS[doc_name]
     text = doc if isinstance(doc, str) else json.dumps(doc)
-    CTX = world.Context('c12')
+    # (a plain dict is a perfectly good context object: the hooks get THAT object, not a copy of it)
+    CTX = {'token-holder': 'c12'} if outer.endswith('-dict-context') else world.Context('c12')
     o = serverside.observe(w, text, context=CTX)
     cls = (''.join(stack), table, doc_name, flavour)
     fam = f'{flavour}:{len(stack)}mw:{table}'
@@ -348,7 +361,7 @@ def run_case(ctx, stack, table, doc_name, flavour):
     want_events, want_resps, want_exec = {}, [], []
     any_failing = False
     for el in elements:
-        ev, resp, ex = expected_element(el, stack, tspec, 'c12')
+        ev, resp, ex = expected_element(el, stack, tspec, None if outer.endswith('-dict-context') else 'c12')
         t = el['id'] if el.get('id') is not None else f"n:{el['method']}"
         want_events[t] = ev
         if resp is not None:
@@ -442,6 +455,8 @@ def gen(ctx):
     for stack in stacks:
         for table in TABLES:
             flavours = ['sync', 'async', 'async-suspending', 'async-sequential', 'async-awaitables']
+            if len(stack) <= 2:
+                flavours += ['sync-own-response-class', 'async-own-response-class', 'async-dict-context', 'sync-dict-context']
             if len(stack) <= 1 or (len(stack) == 2 and table in ('none', 'generic', 'both')):
                 flavours += ['flask-endpoint', 'aiohttp-endpoint']
             for flavour in flavours:
